@@ -29,7 +29,7 @@ Faults == {[loader |-> "grb", kind |-> "edit8", at |-> o, val |-> v, from |-> w]
           \cup {[loader |-> "grb", kind |-> "cut", at |-> f, val |-> "0", from |-> "start"] : f \in CutFractions}
           \cup {[loader |-> "grb", kind |-> "splice", at |-> f, val |-> g, from |-> "start"] : f \in CutFractions, g \in {"head", "tail", "self"}}
           \cup {[loader |-> l, kind |-> k, at |-> c, val |-> v, from |-> "start"] : l \in {"grl", "jsonrule", "jsonfact"}, k \in {"cut", "insert", "repeat"},
-                   c \in TextCuts, v \in {"bignum", "deep", "quote", "nul", "brace", "longname", "unicode", "blank", "longchain"}}
+                   c \in TextCuts, v \in {"bignum", "deep", "quote", "nul", "brace", "longname", "unicode", "blank", "longchain", "selchain"}}
           \* two faults in one text: an early one that makes the loader give up on a rule (and may leave its internal state half way),
           \* followed by boundary material in a later, otherwise well-formed rule
           \cup {[loader |-> l, kind |-> "double", at |-> c, val |-> v, from |-> "start"] : l \in {"grl", "jsonrule"}, c \in TextCuts,
